@@ -13,7 +13,7 @@ try:
         print("pattern not found"); sys.exit(9)
     s = s.replace(old, new, 1)
     open(p, "w").write(s)
-    env = dict(os.environ, PYREX_REPO=d)
+    env = dict(os.environ, PYREX_REPO=d, PYVC_EVIDENCE_DIR=os.path.join(d, '_evidence'))
     r = subprocess.run(["/verif/check", pid] + extra, env=env, capture_output=True, text=True)
     out = r.stdout + r.stderr
     lines = [l for l in out.splitlines() if l.startswith(("VIOLATION", "SUMMARY", "UNDECIDED", "ENGINE", "KNOWN", "  failed"))]
